@@ -35,6 +35,10 @@ const (
 	ExtraJar     = 2 // 0xCAFE, empty, local and central
 	ExtraPad     = 3 // zipalign-style zero padding (3 bytes) in the local header only
 	NumExtra     = 4
+	// ExtraHuge (outside the enumerated product): tag 0x7778 with 30000 data
+	// bytes, local and central. With Comment 2 (40000 bytes) one central entry's
+	// name+extra+comment exceed 64 KiB although every field fits its 16 bits.
+	ExtraHuge = 4
 
 	NameShort = 0
 	NameDir   = 1
@@ -74,7 +78,7 @@ func (a Archive) String() string {
 
 var descNames = []string{"none", "16sig", "12nosig", "24sig", "20nosig"}
 var z64Names = []string{"none", "central", "local+central", "central-offset-only"}
-var extraNames = []string{"none", "unknown", "jar", "localpad"}
+var extraNames = []string{"none", "unknown", "jar", "localpad", "huge30000"}
 var nameNames = []string{"short", "dir", "long300", "utf8"}
 
 // Features lists the non-default features of a member, "k=v,k=v".
@@ -98,8 +102,10 @@ func (m Member) Features() string {
 	if m.Name != 0 {
 		f = append(f, "name="+nameNames[m.Name])
 	}
-	if m.Comment != 0 {
+	if m.Comment == 1 {
 		f = append(f, "comment=5")
+	} else if m.Comment == 2 {
+		f = append(f, "comment=40000")
 	}
 	return strings.Join(f, ",")
 }
@@ -199,6 +205,14 @@ func otherExtra(kind int, local bool) []byte {
 		if local {
 			return []byte{0, 0, 0}
 		}
+	case ExtraHuge:
+		b := make([]byte, 4+30000)
+		b[0], b[1] = 0x78, 0x77
+		b[2], b[3] = byte(30000&0xff), byte(30000>>8)
+		for i := 4; i < len(b); i++ {
+			b[i] = byte('e' + i%3)
+		}
+		return b
 	}
 	return nil
 }
@@ -346,6 +360,9 @@ func Build(a Archive) ([]byte, Layout) {
 		var comment []byte
 		if m.Comment != 0 {
 			comment = []byte("cmnt" + string(rune('0'+i)))
+			if m.Comment == 2 {
+				comment = bytes.Repeat([]byte("comment "), 5000)
+			}
 		}
 		start := out.Len()
 		le32(&out, sigCentral)
